@@ -2,7 +2,9 @@
 C07 — authored transactions conserve value and pay at least the requested fee rate; no dust / zero change;
 "insufficient funds" only when the offered coins cannot cover outputs + required fee.
 
-VARIANT FOR THE TREE BEFORE fix-C07-F4 / fix-C07-F5 (kept as repo-patches/C07-unfixed-tree/C07.lean).
+This file is for the tree WITH fix-C07-F4 (EstimateVirtualSize sizes the output-count var-int from `outputCount`) and
+fix-C07-F5 (the first target fee of NewUnsignedTransaction assumes no input).  The variant for the tree before those
+fixes (`_partial` theorems + counter-examples on the generated code) is kept in repo-patches/C07-unfixed-tree/C07.lean.
 
 Layout
   1. translation facts: the arithmetic GENERATED from the current working tree (`SizesGen`, via `Author.genCfg`) equals
@@ -56,8 +58,9 @@ theorem C07_gen_dust : DustOK genCfg := by
     txscript_NullDataTy]
   by_cases h : o.PkScript.isNullData = true <;> simp [h]
 
-/-- generated `EstimateVirtualSize` = closed form with the output-count var-int taken from `len(txOuts)` (PRE-FIX) -/
-theorem C07_gen_est_prefix : EstOK genCfg false := by
+/-- generated `EstimateVirtualSize` = closed form with the output-count var-int sized from `outputCount`
+    (requested outputs + change output).  Fails on a tree without fix-C07-F4, and whenever a size constant changes. -/
+theorem C07_gen_est : EstOK genCfg true := by
   constructor
   intro p t w n outs cs hp ht hw hn
   have hv := varint_bounds (w + n + t)
@@ -67,8 +70,9 @@ theorem C07_gen_est_prefix : EstOK genCfg false := by
   by_cases hc : cs > 0 <;> by_cases hwit : w + n + t > 0 <;> simp [hc, hwit]
   all_goals exact Int.tdiv_eq_ediv_of_nonneg (by omega)
 
-/-- the first estimate of NewUnsignedTransaction assumes one P2WPKH input (PRE-FIX) -/
-theorem C07_gen_init_prefix : genCfg.init = (0, 0, 1, 0) := rfl
+/-- the first estimate of NewUnsignedTransaction (made before any input is known) assumes no input.
+    Fails on a tree without fix-C07-F5. -/
+theorem C07_gen_init : genCfg.init = (0, 0, 0, 0) := rfl
 
 /-- wallet.makeInputSource still has the source text that `Author.prefixSource` / `Author.fill` were written from -/
 theorem C07_makeInputSource_shape : SizesGen.makeInputSource_src =
@@ -103,26 +107,45 @@ theorem C07_conservation (hsrc : SrcSound src Inv) (h0 : Inv s0) (hr : 0 ≤ rat
     r.total = sumCoins r.inputs ∧ sumCoins r.inputs = sumOuts r.outs + r.fee ∧ 0 ≤ r.fee ∧
     (r.changeIdx ≠ none → r.fee = maxReq genCfg rate outs cs r.inputs) := by
   have hf := facts hsrc h0 h
-  have h10 := est_nonneg false outs cs.scriptSize (count_nonneg .p2pkh r.inputs) (count_nonneg .p2tr r.inputs)
+  have h10 := est_nonneg true outs cs.scriptSize (count_nonneg .p2pkh r.inputs) (count_nonneg .p2tr r.inputs)
     (count_nonneg .p2wpkh r.inputs) (count_nonneg .nested r.inputs)
   have hreq : 0 ≤ maxReq genCfg rate outs cs r.inputs := by
     simp only [maxReq]
-    rw [C07_gen_est_prefix.est_eq _ _ _ _ _ _ (count_nonneg _ _) (count_nonneg _ _) (count_nonneg _ _) (count_nonneg _ _),
+    rw [C07_gen_est.est_eq _ _ _ _ _ _ (count_nonneg _ _) (count_nonneg _ _) (count_nonneg _ _) (count_nonneg _ _),
       C07_gen_fee.fee_eq _ _ hr (by omega)]
     exact feeFor_nonneg hr (by omega)
   have := hf.fee
   refine ⟨hf.total_eq, by simp only [Result.fee]; omega, by omega, this.1⟩
 
-/-- PARTIAL (tree before fix-C07-F4): fee ≥ rate × real signed virtual size for every admissible signature length,
-    EXCEPT when a change output is added to exactly 252 (or 65535, …) requested outputs — there the statement is
-    false, see `C07_fee_lower_counterexample`. -/
-theorem C07_fee_lower_partial (hsrc : SrcSound src Inv) (h0 : Inv s0) (hr : 1000 ≤ rate)
+/-- fee ≥ rate × REAL signed virtual size, for every admissible signature length of every input (`Admissible`,
+    `sigOK`): the byte-accurate BIP-141 size of the signed transaction never exceeds the estimate the fee was computed
+    from.  Domain: rate from the relay floor upward; well-formed change source. -/
+theorem C07_fee_lower (hsrc : SrcSound src Inv) (h0 : Inv s0) (hr : 1000 ≤ rate)
     (hcs0 : 0 < cs.scriptSize) (hcsl : ∀ sc, cs.script = some sc → (sc.len : Int) ≤ cs.scriptSize)
     (h : newUnsigned src s0 outs rate cs fuel = .ok r)
-    (hexcl : r.changeIdx = none ∨ varint (outs.length : Int) = varint ((outs.length : Int) + 1))
     (sigs : List Int) (hlen : sigs.length = r.inputs.length) (hadm : Admissible (signedInputs r sigs)) :
     SizesGen.FeeForSerializeSize rate (realVSize (signedInputs r sigs) r.outs) ≤ r.fee :=
-  fee_lower_gen C07_gen_est_prefix C07_gen_fee (facts hsrc h0 h) hr hcs0 hcsl sigs hlen hadm (Or.inr hexcl)
+  fee_lower_gen C07_gen_est C07_gen_fee (facts hsrc h0 h) hr hcs0 hcsl sigs hlen hadm (Or.inl rfl)
+
+/-- the same without the clamp/zero quirks of FeeForSerializeSize: `rate·vsize/1000 ≤ fee` whenever the fee is below
+    21e14 sat -/
+theorem C07_fee_lower_plain (hsrc : SrcSound src Inv) (h0 : Inv s0) (hr : 1000 ≤ rate)
+    (hcs0 : 0 < cs.scriptSize) (hcsl : ∀ sc, cs.script = some sc → (sc.len : Int) ≤ cs.scriptSize)
+    (h : newUnsigned src s0 outs rate cs fuel = .ok r) (hmax : r.fee < maxSatoshi)
+    (sigs : List Int) (hlen : sigs.length = r.inputs.length) (hadm : Admissible (signedInputs r sigs)) :
+    rate * realVSize (signedInputs r sigs) r.outs / 1000 ≤ r.fee := by
+  have hl := C07_fee_lower hsrc h0 hr hcs0 hcsl h sigs hlen hadm
+  have hv := realVSize_ge (signedInputs r sigs) r.outs hadm
+  have := C07_gen_fee.fee_eq rate (realVSize (signedInputs r sigs) r.outs) (by omega) (by omega)
+  simp only [genCfg] at this
+  rw [this] at hl
+  have h0' : 0 ≤ rate * realVSize (signedInputs r sigs) r.outs := Int.mul_nonneg (by omega) (by omega)
+  have h1 : 0 ≤ rate * realVSize (signedInputs r sigs) r.outs / 1000 := Int.ediv_nonneg h0' (by decide)
+  unfold AuthorSpec.feeFor maxSatoshi at hl
+  unfold maxSatoshi at hmax
+  simp only [] at hl
+  repeat' split at hl
+  all_goals omega
 
 /-- fee ≤ rate applied to the worst-case estimate + one dust threshold of the change script -/
 theorem C07_fee_upper (hsrc : SrcSound src Inv) (h0 : Inv s0)
@@ -163,11 +186,10 @@ theorem C07_terminates (coins : List Coin) (outs : List TxOut) (rate : Int) (cs 
   apply loop_terminates
   simp [prefixInit]
 
-/-- PARTIAL (tree before fix-C07-F5): "insufficient funds" ⇒ all offered coins together cannot cover outputs +
-    required fee — EXCEPT when exactly one P2TR coin is offered, see `C07_insufficient_counterexample`. -/
-theorem C07_insufficient_partial (coins : List Coin) (outs : List TxOut) (rate : Int) (cs : ChangeSource)
+/-- "insufficient funds" (wallet source, `makeInputSource(coins)`) ⇒ all offered coins together cannot cover the
+    outputs plus the fee required for them. -/
+theorem C07_insufficient (coins : List Coin) (outs : List TxOut) (rate : Int) (cs : ChangeSource)
     (hr : 1000 ≤ rate) (ho : 0 ≤ sumOuts outs)
-    (hexcl : ¬ (coins.length = 1 ∧ count .p2tr coins = 1))
     (h : authorPrefix coins outs rate cs = .err .insufficient) :
     sumCoins coins < sumOuts outs + SizesGen.FeeForSerializeSize rate (SizesGen.EstimateVirtualSize
       (count .p2pkh coins) (count .p2tr coins) (count .p2wpkh coins) (count .nested coins) outs cs.scriptSize) := by
@@ -175,28 +197,34 @@ theorem C07_insufficient_partial (coins : List Coin) (outs : List TxOut) (rate :
   have hT := count_nonneg .p2tr coins
   have hW := count_nonneg .p2wpkh coins
   have hN := count_nonneg .nested coins
-  have h10 := est_nonneg false outs cs.scriptSize hP hT hW hN
+  have h10 := est_nonneg true outs cs.scriptSize hP hT hW hN
   have hrew : SizesGen.FeeForSerializeSize rate (SizesGen.EstimateVirtualSize
       (count .p2pkh coins) (count .p2tr coins) (count .p2wpkh coins) (count .nested coins) outs cs.scriptSize) =
-      feeAll false rate outs cs coins := by
-    have h1 := C07_gen_est_prefix.est_eq _ _ _ _ outs cs.scriptSize hP hT hW hN
-    have h2 := C07_gen_fee.fee_eq rate (est false (count .p2pkh coins) (count .p2tr coins) (count .p2wpkh coins)
+      feeAll true rate outs cs coins := by
+    have h1 := C07_gen_est.est_eq _ _ _ _ outs cs.scriptSize hP hT hW hN
+    have h2 := C07_gen_fee.fee_eq rate (est true (count .p2pkh coins) (count .p2tr coins) (count .p2wpkh coins)
       (count .nested coins) outs cs.scriptSize) (by omega) (by omega)
     simp only [genCfg] at h1 h2
     rw [h1, h2]
   rw [hrew]
   by_cases hne : coins = []
   · subst hne
-    have := feeAll_pos false hr outs cs []
+    have := feeAll_pos true hr outs cs []
     simp only [sumCoins]; omega
-  · exact insufficient_of_first_le C07_gen_est_prefix C07_gen_fee C07_gen_sum hr outs cs coins _
-      (first_le_feeAll_p2wpkh C07_gen_est_prefix C07_gen_fee hr outs cs coins hne C07_gen_init_prefix hexcl) h
+  · exact insufficient_of_first_le C07_gen_est C07_gen_fee C07_gen_sum hr outs cs coins _
+      (first_le_feeAll C07_gen_est C07_gen_fee hr outs cs coins hne (Or.inl C07_gen_init)) h
 
-/-! ## counter-examples on the unfixed tree (F4, F5) -/
+/-! ## the two defects this property found in the tree before the fixes, as theorems about the PRE-FIX arithmetic
+(`specCfg false (0,0,1,0)`: output-count var-int from `len(txOuts)`, first estimate with one P2WPKH input).  They do
+not depend on the generated code, so they stay true after the fixes and document why the fixes were needed. -/
 
 def p2pkhScript : Script := { len := 25 }
 def p2wpkhScript : Script := { len := 22, isP2WPKH := true, isWitness := true }
 def p2trScript : Script := { len := 34, isP2TR := true, isWitness := true }
+
+def preFix : Cfg := specCfg false (0, 0, 1, 0)
+def authorPre (coins : List Coin) (outs : List TxOut) (rate : Int) (cs : ChangeSource) : Outcome :=
+  (newUnsignedWith preFix prefixSource (prefixInit coins) outs rate cs (coins.length + 2)).1
 
 /-- F4 witness: 252 requested outputs of 1000 sat, one P2WPKH coin of 400000 sat, P2WPKH change, 1000 sat/kvB -/
 def f4outs : List TxOut := List.replicate 252 ⟨1000, p2pkhScript⟩
@@ -205,25 +233,34 @@ def f4cs : ChangeSource := ⟨22, some p2wpkhScript⟩
 def f4result : Result := ⟨f4coins, 400000, f4outs ++ [⟨139322, p2wpkhScript⟩], some 252⟩
 
 set_option maxRecDepth 100000 in
-theorem f4_run : authorPrefix f4coins f4outs 1000 f4cs = .ok f4result := by decide
+/-- F4 (before fix-C07-F4): the authored transaction pays 8678 sat; signed with a 71-byte DER signature it has
+    8680 vB, which at 1000 sat/kvB needs 8680 sat.  The estimate sized the output-count var-int for 252 outputs, the
+    transaction has 253. -/
+theorem C07_history_F4_counterexample :
+    authorPre f4coins f4outs 1000 f4cs = .ok f4result ∧ Admissible (signedInputs f4result [71]) ∧
+    ¬ (AuthorSpec.feeFor 1000 (realVSize (signedInputs f4result [71]) f4result.outs) ≤ f4result.fee) := by
+  exact ⟨by decide, by decide, by decide⟩
 
 set_option maxRecDepth 100000 in
-/-- F4: the authored transaction (fee 8678 sat) signed with a 71-byte DER signature has 8680 vB; at 1000 sat/kvB
-    that needs 8680 sat.  The estimate sized the output-count var-int for 252 outputs, the transaction has 253. -/
-theorem C07_fee_lower_counterexample :
-    authorPrefix f4coins f4outs 1000 f4cs = .ok f4result ∧ Admissible (signedInputs f4result [71]) ∧
-    ¬ (SizesGen.FeeForSerializeSize 1000 (realVSize (signedInputs f4result [71]) f4result.outs) ≤ f4result.fee) := by
-  exact ⟨f4_run, by decide, by decide⟩
+/-- … and the current tree authors the same request with a sufficient fee (8680 sat) -/
+theorem C07_F4_witness_now_ok :
+    authorPrefix f4coins f4outs 1000 f4cs = .ok ⟨f4coins, 400000, f4outs ++ [⟨139320, p2wpkhScript⟩], some 252⟩ := by
+  decide
 
 /-- F5 witness: one P2TR coin of 50140 sat, one output of 50000 sat, 1000 sat/kvB: the coin covers
-    50000 + fee(1 P2TR input) = 50000 + 134, but the first target assumes a P2WPKH input (144). -/
+    50000 + fee(1 P2TR input) = 50000 + 134, but the first target assumed a P2WPKH input (144). -/
 def f5outs : List TxOut := [⟨50000, p2wpkhScript⟩]
 def f5coins : List Coin := [⟨50140, p2trScript⟩]
 
-theorem C07_insufficient_counterexample :
-    authorPrefix f5coins f5outs 1000 f4cs = .err .insufficient ∧
-    ¬ (sumCoins f5coins < sumOuts f5outs + SizesGen.FeeForSerializeSize 1000 (SizesGen.EstimateVirtualSize
-      (count .p2pkh f5coins) (count .p2tr f5coins) (count .p2wpkh f5coins) (count .nested f5coins) f5outs 22)) := by
+/-- F5 (before fix-C07-F5): "insufficient funds" although the coin covers outputs + required fee -/
+theorem C07_history_F5_counterexample :
+    authorPre f5coins f5outs 1000 f4cs = .err .insufficient ∧
+    ¬ (sumCoins f5coins < sumOuts f5outs + feeAll false 1000 f5outs f4cs f5coins) := by
+  decide
+
+/-- … and the current tree authors it (no change: the 6 sat left over are dust and go to the fee) -/
+theorem C07_F5_witness_now_ok :
+    authorPrefix f5coins f5outs 1000 f4cs = .ok ⟨f5coins, 50140, f5outs, none⟩ := by
   decide
 
 /-! ## non-vacuity -/
@@ -235,8 +272,7 @@ example : authorPrefix [⟨30000, p2pkhScript⟩, ⟨40000, p2trScript⟩, ⟨9,
 
 example : Admissible [(Kind.p2pkh, 71), (Kind.p2tr, 64)] := by decide
 
-/-- a genuine "insufficient funds" (hypotheses of `C07_insufficient_partial` hold) -/
-example : authorPrefix [⟨50100, p2wpkhScript⟩] f5outs 1000 f4cs = .err .insufficient ∧
-    ¬ ([(⟨50100, p2wpkhScript⟩ : Coin)].length = 1 ∧ count .p2tr [⟨50100, p2wpkhScript⟩] = 1) := by decide
+/-- a genuine "insufficient funds" -/
+example : authorPrefix [⟨50100, p2wpkhScript⟩] f5outs 1000 f4cs = .err .insufficient := by decide
 
 end C07
